@@ -271,6 +271,11 @@ where
             .map(
                 #[inline]
                 |(order, err)| {
+                    #[cfg(flacenc_verif)]
+                    crate::verif_hooks::oracle_push(crate::verif_hooks::OracleEvent::FixedEstimate {
+                        order,
+                        bits: estimate_entropy(err, order, partitions),
+                    });
                     (
                         order,
                         err,
@@ -369,6 +374,12 @@ fn estimated_qlpc(
     let lpc_order = config.qlpc.lpc_order;
     let lpc_coefs = perform_qlpc(config, signal);
     let qlpc = lpc::quantize_parameters(&lpc_coefs[0..lpc_order], config.qlpc.quant_precision);
+    #[cfg(flacenc_verif)]
+    crate::verif_hooks::oracle_push(crate::verif_hooks::OracleEvent::Qlpc {
+        coefs: qlpc.coefs(),
+        shift: qlpc.shift(),
+        precision: qlpc.precision(),
+    });
     let residual = reuse!(QLPC_ERROR_BUFFER, |errors: &mut Vec<i32>| {
         errors.resize(signal.len(), 0i32);
         lpc::compute_error(&qlpc, signal, errors);
@@ -704,6 +715,28 @@ pub fn encode_with_fixed_block_size<T: Source>(
         .stream_info_mut()
         .set_total_samples(src.len_hint().unwrap_or_else(|| context.total_samples()));
     Ok(stream)
+}
+
+#[cfg(flacenc_verif)]
+pub(crate) fn verif_encode_subframe(
+    config: &config::SubFrameCoding,
+    samples: &[i32],
+    bits_per_sample: u8,
+) -> SubFrame {
+    encode_subframe(config, samples, bits_per_sample)
+}
+
+#[cfg(flacenc_verif)]
+pub(crate) fn verif_fixed_lpc_errors(signal: &[i32]) -> Vec<Vec<i32>> {
+    reuse!(FIXED_LPC_ERRORS, |errors: &mut FixedLpcErrors| {
+        reset_fixed_lpc_errors(errors, signal);
+        errors.iter().map(|e| e.as_ref().to_vec()).collect()
+    })
+}
+
+#[cfg(flacenc_verif)]
+pub(crate) fn verif_estimate_entropy(errors: &[i32], warmup_len: usize, partitions: usize) -> usize {
+    estimate_entropy(errors, warmup_len, partitions)
 }
 
 #[cfg(test)]
